@@ -79,6 +79,61 @@ func genPodRef(r *vh.Rng, s jobctl.Spec) (int64, int64) {
 	return t.Name, int64(r.Range(0, int(t.Replicas)+1))
 }
 
+// ---------- the resync worker (syncTask) after a failed pod delete ----------
+// A running job with all its replicas; one pod must be deleted by the sync (out-of-sync, or a surplus
+// index); its DELETE is refused, so syncJob queues it for resync.  Then the resync worker's syncTask runs:
+// plainly; with the pod going away and its delete event delivered between the worker's GET and its
+// cache.UpdatePod; or after the pod has gone (GET NotFound).  Afterwards the views catch up and the job is
+// reconciled until nothing changes: exactly one pod per replica index.
+func genResync(r *vh.Rng) jobctl.History {
+	var s jobctl.Spec
+	nt := r.Range(1, 2)
+	for i := 0; i < nt; i++ {
+		t := jobctl.Task{Name: int64(vh.Pick(r, []int{3, 7})) - int64(i), Replicas: int64(r.Range(1, 3)), Cpu: 100}
+		s.Tasks = append(s.Tasks, t)
+		s.Min += t.Replicas
+	}
+	s.MaxRetry = 3
+	h := jobctl.History{Spec: s, Status: jobctl.Status{Phase: 4, Min: s.Min, TscNil: true}, Pg: i64p(3)}
+	for _, t := range s.Tasks {
+		for i := int64(0); i < t.Replicas; i++ {
+			h.Pods = append(h.Pods, jobctl.Pod{Task: t.Name, Idx: i, Phase: 1})
+			h.Status.C[1]++
+		}
+	}
+	vt := vh.Pick(r, s.Tasks)
+	var victim jobctl.Pod
+	if r.Chance(2, 3) {
+		// an out-of-sync replica: must be deleted and, once gone, re-created
+		k := r.Intn(len(h.Pods))
+		h.Pods[k].Oos = true
+		victim = h.Pods[k]
+	} else {
+		victim = jobctl.Pod{Task: vt.Name, Idx: vt.Replicas, Phase: 1} // a surplus index
+		h.Pods = append(h.Pods, victim)
+		h.Status.C[1]++
+	}
+	first := syncReq()
+	first.Req.Faults = []jobctl.Fault{{Kind: int64(vh.Pick(r, []int{2, 21, 22, 25})), A: victim.Task, B: victim.Idx}}
+	h.Ops = append(h.Ops, first)
+	switch r.Intn(4) {
+	case 0, 1:
+		h.Ops = append(h.Ops, jobctl.Op{Code: 15, T: victim.Task, I: victim.Idx, Ph: 1}) // raced by the pod's disappearance
+	case 2:
+		h.Ops = append(h.Ops, jobctl.Op{Code: 15, T: victim.Task, I: victim.Idx, Ph: 0})
+	default:
+		h.Ops = append(h.Ops, jobctl.Op{Code: 4, T: victim.Task, I: victim.Idx}, jobctl.Op{Code: 15, T: victim.Task, I: victim.Idx, Ph: 0})
+	}
+	for k := 0; k < 3; k++ {
+		h.Ops = append(h.Ops, jobctl.Op{Code: 7}, jobctl.Op{Code: 8}, jobctl.Op{Code: 6}, syncReq())
+		if k == 0 && r.Chance(1, 2) {
+			h.Ops = append(h.Ops, jobctl.Op{Code: 4, T: victim.Task, I: victim.Idx}) // the deleted pod finally goes away
+		}
+	}
+	h.Ops = append(h.Ops, jobctl.Op{Code: 7}, jobctl.Op{Code: 8})
+	return h
+}
+
 func genHistory(r *vh.Rng, stream string) jobctl.History {
 	s := genSpec(r, stream == "deps")
 	h := jobctl.History{Spec: s, Status: jobctl.Status{Phase: int64(vh.Pick(r, []int{1, 1, 4, 0})), Min: s.Min, TscNil: true}}
@@ -267,5 +322,14 @@ func gen(rng *vh.Rng, n int, emit func(id string, sel int, in []int64, kind stri
 		}
 		t := sp.Tasks[k]
 		emit(fmt.Sprintf("createpod-%d", i), 6, w.T, "createJobPod", m >= 2 && (t.Cpu > 0 || t.Mem > 0), nil)
+	}
+	// the resync worker after a failed pod delete
+	for i := 0; i < n/4+1; i++ {
+		r := rng.Fork()
+		h := genResync(r)
+		w := &jobctl.W{}
+		w.History(h)
+		emit(fmt.Sprintf("hist-resync-%d", i), 1, w.T, "history/resync", true,
+			map[string]any{"tasks": len(h.Spec.Tasks), "initial_pods": len(h.Pods), "ops": len(h.Ops)})
 	}
 }
